@@ -51,7 +51,23 @@ def observe(prop, cases, nworkers=None):
         return [prop.real(c) for c in cases]
     if getattr(prop, 'CONFIGS', None):
         nw = nworkers or max(1, min(4, len(cases) // 400 + 1))
-        per_cfg = [core.run_real(prop.PID, cases, env=env, nworkers=nw) for _name, env in prop.CONFIGS]
+        # the configurations are independent processes: run them side by side
+        import threading
+        per_cfg = [None] * len(prop.CONFIGS)
+        errs = []
+
+        def one(k, env):
+            try:
+                per_cfg[k] = core.run_real(prop.PID, cases, env=env, nworkers=nw)
+            except Exception as e:  # noqa
+                errs.append(e)
+        ths = [threading.Thread(target=one, args=(k, env)) for k, (_name, env) in enumerate(prop.CONFIGS)]
+        for t in ths:
+            t.start()
+        for t in ths:
+            t.join()
+        if errs:
+            raise errs[0]
         return [{'configs': {name: o for (name, _e), o in zip(prop.CONFIGS, col)}} for col in zip(*per_cfg)]
     return core.run_real(prop.PID, cases, env=getattr(prop, 'ENV', None), nworkers=nworkers)
 
